@@ -445,8 +445,8 @@ func genC06(r *Rng, tier string) *World {
 		op.Input = nv
 		// %v of these prints an address: what the library then computes (a string holding that address) is
 		// allocation-dependent by nature, so such worlds are replayed by verdict only, not by event digest
-		for _, vol := range []string{"x:ptr_ptr_string", "x:ptr_ptr_ptr_int", "x:chan", "x:func", "x:ptr_nil_iface", "x:reflect_value"} {
-			if strings.Contains(nv.String(), vol) {
+		for _, name := range ExoticNames {
+			if strings.Contains(nv.String(), "x:"+name) && (ExoticVolatile(name) || name == "reflect_value" || name == "ptr_nil_iface") {
 				w.Params["volatile"] = 1
 			}
 		}
